@@ -366,6 +366,15 @@ def t_dnskey(b):
     b.blob(lossy_if_empty=True)
 
 
+def t_KEY(b):
+    flags = b.u16()
+    b.u8()
+    b.u8(b.draw(st.sampled_from([1, 5, 8, 13, 15, 0, 255, 253])))
+    if flags & 0xC000 == 0xC000:
+        return  # RFC 2535 3.1.2: NOKEY -> the RR stops after the algorithm octet
+    b.blob(lossy_if_empty=True)
+
+
 def t_SSHFP(b):
     b.u8()
     b.u8()
@@ -487,7 +496,8 @@ def t_TKEY(b):
     b.u32()
     b.u16()
     b.u16()
-    b.counted16()
+    if len(b.counted16()) == 0:
+        b.flags.add("text-lossy")  # the ad-hoc text form cannot spell an empty key
     b.counted16()
 
 
@@ -495,7 +505,8 @@ def t_TSIG(b):
     b.name()
     b.u48()
     b.u16()
-    b.counted16()
+    if len(b.counted16()) == 0:
+        b.flags.add("text-lossy")  # ... nor an empty MAC
     b.u16()
     b.u16(b.draw(st.sampled_from([0, 16, 17, 18, 22, 1, 4095, 65535])))
     b.counted16()
@@ -665,7 +676,7 @@ GRAMMARS = {
     "WALLET": t_txt, "HINFO": t_HINFO, "X25": t_X25, "ISDN": t_ISDN, "RP": t_RP, "PX": t_PX,
     "SRV": t_SRV, "NAPTR": t_NAPTR, "WKS": t_WKS, "NSAP": t_NSAP, "GPOS": t_GPOS, "LOC": t_LOC,
     "CERT": t_CERT, "DS": t_ds, "DLV": t_ds, "CDS": t_CDS, "DNSKEY": t_dnskey, "CDNSKEY": t_dnskey,
-    "KEY": t_dnskey, "SSHFP": t_SSHFP, "TLSA": t_tlsa, "SMIMEA": t_tlsa, "DHCID": t_blob,
+    "KEY": t_KEY, "SSHFP": t_SSHFP, "TLSA": t_tlsa, "SMIMEA": t_tlsa, "DHCID": t_blob,
     "OPENPGPKEY": t_blob, "HHIT": t_blob, "BRID": t_blob, "RRSIG": t_rrsig, "SIG": t_rrsig,
     "NSEC": t_NSEC, "NSEC3": t_NSEC3, "NSEC3PARAM": t_NSEC3PARAM, "CSYNC": t_CSYNC,
     "ZONEMD": t_ZONEMD, "HIP": t_HIP, "EUI48": t_eui48, "EUI64": t_eui64, "L32": t_l32,
